@@ -546,6 +546,9 @@ pub fn c05_cases(thorough: bool) -> Vec<C05Case> {
         mk("changed_coefficient_committed_constraint", zero.clone(), Dev::Coeff(0), false),
         mk("changed_constant_committed_constraint", zero.clone(), Dev::Const(0), false),
         mk("changed_constant_with_gates", base.clone(), Dev::Const(1), false),
+        // the coefficient of a committed value that the constraint names ahead of its commitment (coefficient draw #3 of
+        // this skeleton: two on the first commitment, then the one ahead)
+        mk("changed_coefficient_of_a_commitment_named_ahead", Shape::new("ahead", &[Commit, ConAhead, Commit, ConCommitted], &[]), Dev::Coeff(2), false),
         // a constraint that mentions only the constant: its changed constant makes the statement unsatisfiable
         mk("changed_constant_of_constant_only_constraint", Shape::new("const_only", &[Commit, AllocMul, Con, ConConst], &[]), Dev::Const(1), false),
         mk("changed_constant_of_constant_only_constraint_zero_gates", Shape::new("const_only0", &[Commit, ConConst, ConCommitted], &[]), Dev::Const(0), false),
